@@ -34,6 +34,7 @@ RULE = ("Enumerated part: all 256 byte values at odd and at even word "
         "helper call was made. Distinct: event-log digests among non-trivial "
         "runs.")
 RULE += (" Further cases: a third client's nameplate comes and goes during entry (completions compared with the server's latest list); the CLI's readline completer (real _rlcompleter.CodeInputter, harness acting as the user, blockingCallFromThread replaced by call-and-run-the-simulation-until-fired).")
+RULE += (' The readline case includes typos in the nameplate (malformed, later corrected).')
 LEVEL_TEXT = ("Exploration over generated inputs and call histories, with the "
               "byte->word map checked exhaustively (2x256 values). Oracles: "
               "code = server nameplate + '-' + exactly `length` words, one "
